@@ -1238,8 +1238,13 @@ func callReceiver(node ast.Expression) *ast.Identifier {
 	}
 
 	id, ok := ce.Callee.(*ast.Identifier)
-	if !ok || id.Callee != nil {
+	if !ok || id == nil {
 		return nil
+	}
+
+	// the root of the receiver chain (x[i].a.b.M(): the name x[i] is bound to)
+	for id.Callee != nil {
+		id = id.Callee
 	}
 
 	return id
